@@ -292,6 +292,10 @@ def check_array_recursion(ctx, rep, rule, names=('mark', 'untrace')):
             if GCN + name in names and any(n.endswith('as_vec_unchecked') or n.endswith('as_vec') for n in names):
                 # the recursive call sits inside the loop over the array's elements
                 rec = True
+        if not rec:
+            # ... or in the closure handed to for_each over those elements
+            from rules.shared import for_each_over
+            rec = for_each_over(F, fn, None, 'as_vec', (GCN + name,))
         rep.ob(rec, rule, fn.path, 'array recursion', 'on arrays, %s visits every element (recursive call inside the element loop)' % name, fn.loc())
         # the recursion is conditional on the tag being Array
         tagtest = any(callee_name(t) == 'object::Object::tag' for b, t in fn.calls())
